@@ -75,11 +75,7 @@ Proof.
   induction n as [|n IH]; intros s X acc f Hs Hf; [lia|].
   destruct s as [|b r].
   - cbn [escape_fuel sanitize_fuel app]. destruct f as [|f]; [cbn in Hf; lia|]. rewrite ps_quote. now rewrite app_nil_r.
-<<<<<<< HEAD
   - cbn [escape_fuel sanitize_fuel] in *. cbn [length] in Hs.
-=======
-  - cbn [escape_fuel sanitize_fuel]. cbn [length] in Hs.
->>>>>>> wC05
     destruct (0x80 <=? bN b)%N eqn:Hhi.
     + destruct (decode_multi (b :: r)) as [k|] eqn:Hd.
       * destruct (decode_multi_prefix _ _ Hd) as (Hlen & Hk & Hpre).
@@ -111,7 +107,6 @@ Theorem string_roundtrip s X : forall f, length (escape s) < f ->
 Proof. intros f Hf. unfold escape, sanitize in *. rewrite escape_parse; [reflexivity|lia|exact Hf]. Qed.
 
 (* sanitize is the identity on bytes that need no replacement: plain ASCII *)
-<<<<<<< HEAD
 Lemma sanitize_fuel_ascii n : forall s, length s < n ->
   forallb (fun b => negb (0x80 <=? bN b)%N) s = true -> sanitize_fuel n s = s.
 Proof.
@@ -121,15 +116,6 @@ Proof.
 Qed.
 Lemma sanitize_ascii s : forallb (fun b => negb (0x80 <=? bN b)%N) s = true -> sanitize s = s.
 Proof. intros H. unfold sanitize. apply sanitize_fuel_ascii; [lia|exact H]. Qed.
-=======
-Lemma sanitize_ascii s : forallb (fun b => negb (0x80 <=? bN b)%N) s = true -> sanitize s = s.
-Proof.
-  unfold sanitize. generalize (S (length s)) at 1. intros n. generalize (Nat.lt_succ_diag_r (length s)).
-  generalize (S (length s)). intros m. revert s. induction m as [|m IH]; intros s Hl H; [lia|].
-  destruct s as [|b r]; [reflexivity|]. cbn [forallb] in H. apply andb_true_iff in H as [H1 H2].
-  apply negb_true_iff in H1. cbn [sanitize_fuel]. rewrite H1. f_equal. apply IH; [cbn in Hl; lia|exact H2].
-Qed.
->>>>>>> wC05
 
 (* the escaped form contains no control character and no raw quote *)
 Lemma escape_no_ctl n : forall s, no_ctl (escape_fuel n s) = true.
@@ -150,13 +136,9 @@ Proof.
            { intros x lo hi Hlo Hx. unfold in_rng in Hx. apply andb_true_iff in Hx as [Hx _]. apply negb_true_iff, N.ltb_ge.
              apply N.leb_le in Hlo, Hx. lia. }
            rewrite (G b 224%N 239%N eq_refl E2), (G b2 128%N 191%N eq_refl C2).
-<<<<<<< HEAD
            assert (H1 : negb (bN b1 <? 32)%N = true)
              by (revert C1; destruct (bN b =? 224)%N, (bN b =? 237)%N; intros C1; (eapply G; [|exact C1]); reflexivity).
            now rewrite H1.
-=======
-           destruct (bN b =? 224)%N, (bN b =? 237)%N; rewrite (G b1 _ _ eq_refl C1); reflexivity.
->>>>>>> wC05
         -- destruct (in_rng 240 244 b) eqn:E3; [|discriminate].
            destruct r as [|b1 [|b2 [|b3 r3]]]; try discriminate. destruct (in_rng _ _ b1 && cont b2 && cont b3) eqn:C; [|discriminate]. intros [= <-].
            apply andb_true_iff in C as [C C3]. apply andb_true_iff in C as [C1 C2]. cbn [firstn forallb].
@@ -164,13 +146,9 @@ Proof.
            { intros x lo hi Hlo Hx. unfold in_rng in Hx. apply andb_true_iff in Hx as [Hx _]. apply negb_true_iff, N.ltb_ge.
              apply N.leb_le in Hlo, Hx. lia. }
            rewrite (G b 240%N 244%N eq_refl E3), (G b2 128%N 191%N eq_refl C2), (G b3 128%N 191%N eq_refl C3).
-<<<<<<< HEAD
            assert (H1 : negb (bN b1 <? 32)%N = true)
              by (revert C1; destruct (bN b =? 240)%N, (bN b =? 244)%N; intros C1; (eapply G; [|exact C1]); reflexivity).
            now rewrite H1.
-=======
-           destruct (bN b =? 240)%N, (bN b =? 244)%N; rewrite (G b1 _ _ eq_refl C1); reflexivity.
->>>>>>> wC05
     + unfold no_ctl in *. rewrite forallb_app, IH. reflexivity.
   - destruct ((0x20 <=? bN b)%N && negb (Byte.eqb b BSLASH) && negb (Byte.eqb b QUOTE)) eqn:Hp.
     + unfold no_ctl in *. cbn [forallb]. rewrite IH, andb_true_r.
